@@ -208,6 +208,7 @@ var defaultWeights = map[string]int{
 }
 
 type gen struct {
+	authVer       int
 	seed          uint64
 	tcpShared     bool
 	curPrefSvc    string
@@ -1194,10 +1195,33 @@ func (g *gen) genOp(name string) {
 		}
 		g.emit(ep, name)
 	case "secret_rotate":
+		if g.chance(1, 5) {
+			// the users of a basic authentication secret change, nothing else does
+			keys := []string{"a/auth", "b/auth", "a/auth2"}
+			if cur, _ := g.objs[KSecret][keys[g.pick(len(keys))]].(*api.Secret); cur != nil && cur.Data["auth"] != nil {
+				nc := cur.DeepCopy()
+				g.authVer++
+				nc.Data["auth"] = []byte(fmt.Sprintf("usr1::clear%d\nusr%d::clearx\n", g.authVer, g.authVer))
+				g.emit(nc, "rotate users")
+			}
+			return
+		}
 		keys := []string{"a/tls1", "a/tls2", "b/tls1"}
 		key := keys[g.pick(len(keys))]
 		cur, _ := g.objs[KSecret][key].(*api.Secret)
 		if cur == nil {
+			return
+		}
+		if leaf := leafPEM(cur.Data[api.TLSCertKey]); leaf != nil && g.chance(1, 3) {
+			// the chain changes, the leaf certificate and its key stay (an intermediate is added or dropped)
+			certs()
+			nc := cur.DeepCopy()
+			if len(cur.Data[api.TLSCertKey]) > len(leaf) {
+				nc.Data[api.TLSCertKey] = leaf
+			} else {
+				nc.Data[api.TLSCertKey] = append(append([]byte{}, leaf...), caPair.Crt...)
+			}
+			g.emit(nc, "rotate chain only")
 			return
 		}
 		ns := mkTLSSecret(cur.Namespace, cur.Name, g.nextCert())
